@@ -606,11 +606,12 @@ func (c *Context) GetFunction(name string) (*BuiltinFunction, error) {
 	if obj == nil || obj.Value == nil {
 		return nil, fmt.Errorf(`"%s" is not a function`, name)
 	}
-	// Value exists, but unable to access in current scope
-	if obj.Value.Scopes&c.curMode == 0 {
+	// Value exists, but unable to access in current scope.
+	// Note that the subroutine may be annotated with multiple scopes, the function must be available in all of them
+	if c.curMode == 0 || obj.Value.Scopes&c.curMode != c.curMode {
 		return nil, fmt.Errorf(
 			`function "%s" is not available in scope %s\nSee reference documentation: %s`,
-			name, ScopeString(c.curMode), obj.Value.Reference,
+			name, strings.TrimSpace(ScopesString(c.curMode)), obj.Value.Reference,
 		)
 	}
 
